@@ -4,6 +4,7 @@
 import PatchModel.Model.Driver
 import PatchModel.Lemmas.Fault
 import PatchModel.Lemmas.Modes
+import PatchModel.Lemmas.DriverFacts
 namespace PatchModel.C17
 open PatchModel PatchModel.Fault PatchModel.Modes
 
@@ -28,6 +29,70 @@ theorem writable_untouched (o : Options) (p : Bytes) (s : DState) (m : Nat) (b :
   rw [run_bind_ok (run_fsGetPerms_file hfile)]
   simp only [needFix_false hw]
   rfl
+
+/-- **the read-only check only looks**: whatever the target, the options and the outcome, `fix_permissions_if_needed` performs no
+    file system operation and leaves the tree as it is (it reads the mode, prints the warning, decides). So a refusal or an abort
+    after the check — `--read-only=fail`, a missing prerequisite, a malformed body, an unreadable input — finds the mode of the
+    target untouched: the `chmod` of a read-only target is `makeWritable`'s, right before the backup and the write. -/
+theorem fixPermissions_reads_only (o : Options) (p : Bytes) (s s' : DState) (r : Except Exn PermResult)
+    (h : (fixPermissionsIfNeeded o p).run s = (r, s')) : s'.fs = s.fs ∧ s'.trace = s.trace := by
+  have h : run (fixPermissionsIfNeeded o p) s = (r, s') := h
+  unfold fixPermissionsIfNeeded at h
+  rw [run_bind_ok (run_fsGetPerms p s)] at h
+  dsimp only at h
+  repeat' split at h
+  all_goals first
+    | (cases h; exact ⟨rfl, rfl⟩)
+    | (rw [run_bind_ok (run_emit _ _)] at h; repeat' split at h
+       all_goals (cases h; exact ⟨rfl, rfl⟩))
+
+/-- `DriverFacts.ChmodLate d ops`, spelled out: every `chmod p` among `ops` comes after a `creat p` (it is the permission callback
+    that follows the write of `p`), or is directly followed by the operation it prepares — the backup (`rename p …`, or the creation
+    of an empty backup file) or the re-creation of the target —, or, only if `d`, is the very last operation -/
+theorem chmodLate_iff (d : Prop) (ops : List FsOp) : DriverFacts.ChmodLate d ops ↔
+    ∀ i p m, ops[i]? = some (FsOp.chmod p m) →
+      (∃ j, j < i ∧ ops[j]? = some (FsOp.creat p)) ∨
+      (∃ op, ops[i + 1]? = some op ∧ ((∃ b, op = FsOp.rename p b) ∨ ∃ b, op = FsOp.creat b)) ∨
+      (d ∧ i + 1 = ops.length) := Iff.rfl
+
+/-- **a section never leaves a read-only target writable without going on to write it**: in the operations of one section, a
+    `chmod p` is either the permission callback after `p` was re-created, or is directly followed by the backup / re-creation of the
+    target; the only exception is a `chmod` that is the last operation of a section that aborted with an I/O error (the very next
+    operation failed).  In particular a section that ends normally (patched, refused, skipped) or aborts for any other reason
+    (prerequisite, malformed text, …) has not changed any mode except on its way to a write. -/
+theorem section_chmod_late (o : Options) (format : Format) (s s' : DState) (r : Except Exn Bool)
+    (h : (processSection o format).run s = (r, s')) :
+    ∃ ops, s'.trace = s.trace ++ ops ∧
+      ∀ i p m, ops[i]? = some (FsOp.chmod p m) →
+        (∃ j, j < i ∧ ops[j]? = some (FsOp.creat p)) ∨
+        (∃ op, ops[i + 1]? = some op ∧ ((∃ b, op = FsOp.rename p b) ∨ ∃ b, op = FsOp.creat b)) ∨
+        (r = .error .systemError ∧ i + 1 = ops.length) := by
+  cases r with
+  | ok a =>
+    obtain ⟨ops, e, hl⟩ := (DriverFacts.processSection_late o format).ok _ _ _ h
+    exact ⟨ops, e, fun i p m hi => (hl i p m hi).imp id (Or.imp id (fun x => x.1.elim))⟩
+  | error e =>
+    obtain ⟨ops, e', hl⟩ := (DriverFacts.processSection_late o format).err _ _ _ h
+    exact ⟨ops, e', fun i p m hi => (hl i p m hi).imp id (Or.imp id (fun x => ⟨by rw [x.1], x.2⟩))⟩
+
+/-- the same for a whole run (sections and `DeferredWriter::finalize`): a `chmod` that is neither after the `creat` of its path nor
+    directly before a backup / creation is the last operation of a run that ended with exit status 2 -/
+theorem run_chmod_late (o : Options) (s0 : DState) :
+    ∃ ops, (runPatch o s0).2.trace = s0.trace ++ ops ∧
+      ∀ i p m, ops[i]? = some (FsOp.chmod p m) →
+        (∃ j, j < i ∧ ops[j]? = some (FsOp.creat p)) ∨
+        (∃ op, ops[i + 1]? = some op ∧ ((∃ b, op = FsOp.rename p b) ∨ ∃ b, op = FsOp.creat b)) ∨
+        ((runPatch o s0).1 = 2 ∧ i + 1 = ops.length) := by
+  unfold runPatch
+  split
+  · exact ⟨[], by simp, fun i p m hi => by simp at hi⟩
+  · split
+    · next s hr =>
+      obtain ⟨ops, e, hl⟩ := (DriverFacts.processPatchM_late o).ok _ _ _ hr
+      exact ⟨ops, e, fun i p m hi => (hl i p m hi).imp id (Or.imp id (fun x => x.1.elim))⟩
+    · next e s hr =>
+      obtain ⟨ops, e', hl⟩ := (DriverFacts.processPatchM_late o).err _ _ _ hr
+      exact ⟨ops, e', fun i p m hi => (hl i p m hi).imp id (Or.imp id (fun x => ⟨rfl, x.2⟩))⟩
 
 /-- after the patched result has been written, the permission callback gives the file exactly the mode a git header asks for, or else
     the mode the target had before (also when it had to be made writable, and also when a backup renamed the original away) -/
@@ -86,6 +151,9 @@ theorem refuse_dry (o : Options) (outputFile : Bytes) (p : Patch) (s : DState) (
   rfl
 
 #print axioms readonly_fail_untouched
+#print axioms fixPermissions_reads_only
+#print axioms section_chmod_late
+#print axioms run_chmod_late
 #print axioms writable_untouched
 #print axioms callback_mode
 #print axioms refuse_touches_only_rejects
